@@ -38,7 +38,11 @@
 EXTENDS Collector
 
 CONSTANTS Roots,       \* block roots (positive integers); for the majority variants the root IS the value
-          Dev          \* "none" | "GlobalFetchLock" | "UnboundedTiebreak"
+          Dev,         \* "none" | "GlobalFetchLock" | "UnboundedTiebreak"
+          Tolerant     \* FALSE: a fetch ends exactly in the phase Eff says (model checking); TRUE: in that phase or
+                       \* any other from the current one on - trace validation, where the instant at which the
+                       \* lookup's own duration has passed is classified before / ambiguous / after the deadlines like
+                       \* every other instant (a fetch cut by the context ends AT the hard deadline: ambiguous)
 
 VARIABLES nph,         \* nph[p]: the phase in which node p answers (ph[p]: in which its response is available)
           rt,          \* rt[p]: the head root node p reports
@@ -61,6 +65,8 @@ Nx(f) == CASE f = "early" -> "mid" [] f = "mid" -> "late" [] OTHER -> "late"
 \* when a fetch started in phase f for a root with header behaviour h ends (never: with the context)
 Eff(f, h) == CASE h = "ok1" -> Nx(f) [] h = "never" -> "late" [] OTHER -> f
 FetchOk(r) == hdr[r] \in {"ok0", "ok1"}
+PhNo(f) == CASE f = "early" -> 1 [] f = "mid" -> 2 [] OTHER -> 3
+EffSet(f, h) == IF Tolerant THEN {g \in {"early", "mid", "late"} : PhNo(g) >= PhNo(f)} ELSE {Eff(f, h)}
 
 ProvLookup == variant = "Best"                       \* the lookup is made in the provider goroutine
 CollLookup == variant \in {"Majority", "RootMajority"}  \* ... by the collector, after the loops
@@ -95,13 +101,14 @@ Answer(p) ==
     /\ Scored(p) /\ pst[p] = "idle" /\ lk[p] = "idle" /\ nph[p] = clock /\ LQuiescent
     /\ IF rt[p] \in cached
        THEN lk' = [lk EXCEPT ![p] = "ready"] /\ UNCHANGED <<ph, beh, fdue, holder>>
-       ELSE /\ ph' = [ph EXCEPT ![p] = Eff(clock, hdr[rt[p]])]
+       ELSE /\ \E f \in EffSet(clock, hdr[rt[p]]) :
+                  /\ ph' = [ph EXCEPT ![p] = f]
+                  /\ IF Dev = "GlobalFetchLock" /\ holder # 0
+                     THEN lk' = [lk EXCEPT ![p] = "wait"] /\ UNCHANGED <<fdue, holder>>
+                     ELSE /\ lk' = [lk EXCEPT ![p] = "fetch"]
+                          /\ fdue' = [fdue EXCEPT ![p] = f]
+                          /\ holder' = IF Dev = "GlobalFetchLock" THEN p ELSE holder
             /\ beh' = [beh EXCEPT ![p].s = IF FetchOk(rt[p]) THEN @ ELSE fs[p]]
-            /\ IF Dev = "GlobalFetchLock" /\ holder # 0
-               THEN lk' = [lk EXCEPT ![p] = "wait"] /\ UNCHANGED <<fdue, holder>>
-               ELSE /\ lk' = [lk EXCEPT ![p] = "fetch"]
-                    /\ fdue' = [fdue EXCEPT ![p] = Eff(clock, hdr[rt[p]])]
-                    /\ holder' = IF Dev = "GlobalFetchLock" THEN p ELSE holder
     /\ UNCHANGED <<variant, n, thr, cap, clock, pst, respCh, errCh, pc, responded, errored, timedOut, softTimedOut,
                    best, counts, rcvd, hardSel, steps, result, nph, rt, hdr, fs, cached, tb, pend, tcur, tdue, over>>
 
